@@ -20,6 +20,7 @@ def main(tier):
             "Ok() and both size tests, and the structure's TryToCopyFrom is `other.Ok() && backing_.TryToCopyFrom(…, "
             "other's intrinsic size)` (R-COPY). Not decided: byte-level post-conditions, symmetry on arbitrary buffers."))
     chk.run("R-EQLOCKSTEP", B.eqlockstep, cx.repo, floor=4)
+    chk.run("R-ELEMLOOP", WN.elemloops, cx.cpp, floor=5)
     chk.run("R-PACKFORWARD", WN.packforward, cx.cpp, floor=3)
     chk.run("R-EQTABLE", MB.eqtable, cx.cpp, cx.templates, floor=26)
     chk.run("R-SIBLING", C.sibling, cx.cpp, methods=('CopyFrom', 'TryToCopyFrom', 'UncheckedCopyFrom', 'Equals', 'UncheckedEquals'), floor=80, control=lambda: cx.cpp_control)
